@@ -132,6 +132,64 @@ theorem C03_table_eq_fields :
     Gen.eqFields = ["_ids", "_variables", "_parameters", "_derived", "_readouts", "_reactions", "_surrogates",
       "_data"] := rfl
 
+/-! ## the whole public surface of `class Model` -/
+
+/-- Every public function the class body defines is one of the 30 mutators (`C03_table_mutators`), or a reader the
+    model answers, or a reader named as out of scope with its reason — and every name listed exists in the source.
+    (The translator has already refused the source if any non-mutator writes `_ids` or a container, directly or
+    through a call on `self`, or writes `_cache` outside `_create_cache`.)  A NEW public method makes this fail. -/
+theorem C03_table_surface :
+    (∀ r ∈ Gen.readers, r.1 ∈ modelledEntries ∨ r.1 ∈ outOfScope.map (·.1)) ∧
+    (∀ n ∈ modelledEntries ++ outOfScope.map (·.1), n = "__eq__" ∨ n ∈ Gen.readers.map (·.1)) ∧
+    Gen.properties = ["ids", "parameters", "variables", "derived", "reactions"] ∧
+    Gen.privates = ["_create_cache", "_insert_id", "_check_new_ids", "_check_known_names", "_remove_id",
+      "_scaled_value", "_get_args", "_get_args_time_course", "_get_right_hand_side"] ∧
+    -- the only places where one of the model's own dictionaries leaves a non-mutator uncopied: the
+    -- `as_copy=False` escape of `get_raw_*` and a local alias that is only read
+    Gen.liveRefs = [("get_raw_parameters", "_parameters"), ("get_raw_variables", "_variables"),
+      ("get_raw_derived", "_derived"), ("get_derived_variables", "_derived"), ("get_derived_parameters", "_derived"),
+      ("get_raw_reactions", "_reactions"), ("get_raw_readouts", "_readouts"), ("get_raw_surrogates", "_surrogates")] := by
+  refine ⟨by decide, by decide, rfl, rfl, rfl⟩
+
+/-- The model's classification of the query forms agrees with the source: a form the model answers from the cache
+    stands for a method that does reach `self._cache`; a form the model answers WITHOUT a cache stands for a method
+    that cannot reach it (so it cannot be stale) — except `get_arg_names`, which reaches it only under the two
+    derived flags, and `==`, which is the dataclass' own. -/
+theorem C03_query_entry (q : Query) :
+    q.entry ∈ modelledEntries ∧
+    (q.needsCache = true → Gen.readers.lookup q.entry = some true) ∧
+    (q.needsCache = false →
+      q.entry = "get_arg_names" ∨ q.entry = "__eq__" ∨ Gen.readers.lookup q.entry = some false) := by
+  cases q with
+  | names nq => cases nq <;> first | decide | exact ⟨by simp [Query.entry, modelledEntries], fun h => (by cases h), fun _ => Or.inr (Or.inr rfl)⟩
+  | argNames fl => exact ⟨by simp [Query.entry, modelledEntries], fun _ => rfl, fun _ => Or.inl rfl⟩
+  | rawStoich x => exact ⟨by simp [Query.entry, modelledEntries], fun h => (by cases h), fun _ => Or.inr (Or.inr rfl)⟩
+  | eqFresh => decide
+  | init => decide
+  | pvals => decide
+  | classes => decide
+  | _ => exact ⟨by simp [Query.entry, modelledEntries], fun _ => rfl, fun h => (by cases h)⟩
+
+/-- The private helpers the model's `insertId`, `removeId`, `checkNewIds`, `checkKnown`, `scaledValue` and `inval` are
+    written after, statement by statement as read from the source (messages dropped, locals renamed by first
+    appearance): `_insert_id` rejects "time", then a taken name, then stores; `_check_new_ids` starts from the ids
+    minus `replaced` and adds each accepted name; `_check_known_names` rejects an unknown or repeated name;
+    `_scaled_value` reads the parameter, goes through the cache only for an initial assignment and writes nothing;
+    the `@_invalidate_cache` wrapper clears `_cache` unconditionally before it calls the method. -/
+theorem C03_table_helpers :
+    Gen.helperBodies =
+    [ ("_insert_id", ["if v0 == 'time':; raise KeyError", "if v0 in self._ids:; raise NameError",
+        "self._ids[v0] = v1"]),
+      ("_remove_id", ["del self._ids[v0]"]),
+      ("_check_new_ids", ["v3 = set(self._ids).difference(v2)",
+        "for v4 in v0:; if v4 == 'time':; raise KeyError; if v4 in v3:; raise NameError; v3.add(v4)"]),
+      ("_check_known_names", ["v3 = set()",
+        "for v4 in v0:; if v4 not in v1 or v4 in v3:; raise KeyError; v3.add(v4)"]),
+      ("_scaled_value", ["v2 = self._parameters[v0].value",
+        "if isinstance(v2, InitialAssignment):; if (v3 := self._cache) is None:; v3 = self._create_cache(); v2 = v3.all_parameter_values[v0]",
+        "return v2 * v1"]),
+      ("_invalidate_cache", ["self = v0[0]", "self._cache = None", "return METHOD(*v0, **v1)"]) ] := rfl
+
 /-! ## the cache is never stale -/
 
 /-- After ANY history of mutators and queries the cache is empty or is exactly what `_create_cache` builds
